@@ -19,7 +19,7 @@ ASSUMPTIONS = [
 ]
 BUDGET = {"quick": 3000, "thorough": 120000}
 TIME_CAP = {"quick": 75, "thorough": 1500}
-PROFILE = {"extreme": 0.4, "allow_negative_functions": True, "p_function": 0.5, "p_limits": 0.15, "max_steps": 25, "p_deriv": 0.1, "p_agg_transition": 0.1, "p_programs": 0.3}
+PROFILE = {"extreme": 0.4, "allow_negative_functions": True, "p_function": 0.5, "p_limits": 0.15, "max_steps": 25, "p_deriv": 0.1, "p_agg_transition": 0.1, "p_programs": 0.3, "p_second_type": 0.15}
 
 
 def strategy(tier):
